@@ -58,12 +58,22 @@ RECURSIVE WrapAll(_, _)
 WrapAll(ws, k) == IF k = 0 THEN Probe(0) ELSE Wrap(ws[k], WrapAll(ws, k - 1), k)    \* ws[Len] is outermost
 StackConfigs == {WrapAll(ws, Len(ws)) : ws \in SeqOf(Wrappers, MaxDepth)}
 
+(* "sibling": every route table {P, P+x, P+y} (P = "" or "a"; x # y over Alpha) for every mask, P added first or last:
+   the radix trie gets a value-less internal node where P+x and P+y diverge (at nibble granularity: 'a' = 0x61 and
+   'b' = 0x62 share the high nibble, '.' = 0x2e and 'A' = 0x41 do not); names end on / pass through / diverge inside it *)
+SiblingConfigs ==
+  {[t |-> "router", def |-> Probe(0),
+    routes |-> IF first THEN <<RouteTo(m, P, Probe(1)), RouteTo(m, P \o <<x>>, Probe(2)), RouteTo(m, P \o <<y>>, Probe(3))>>
+               ELSE <<RouteTo(m, P \o <<x>>, Probe(2)), RouteTo(m, P \o <<y>>, Probe(3)), RouteTo(m, P, Probe(1))>>]
+     : P \in {<<>>, <<cA>>}, x \in Alpha, y \in Alpha, m \in MaskSet, first \in BOOLEAN}
+
 MCConfigs == CASE Mode = "prefix" -> PrefixConfigs
                [] Mode = "filter" -> FilterConfigs
                [] Mode = "router" -> RouterConfigs
                [] Mode = "fanout" -> FanoutConfigs
                [] Mode = "stack"  -> StackConfigs
                [] Mode = "builder" -> {}
+               [] Mode = "sibling" -> SiblingConfigs
 
 (* ---- "builder": every history of at most MaxHist calls on FilterLayer / PrefixLayer values ---- *)
 Call(c, b, p, pats, x, onto) == [c |-> c, b |-> b, p |-> p, pats |-> pats, x |-> x, onto |-> onto]
@@ -120,5 +130,7 @@ Program(c) ==
 HistProgram == [hist |-> hist, ops |-> SetToSeq(AllOps)]
 ExportNext == DoConfigure \/ DoBuild \/ DoAssemble
 ExportSpec == Init /\ [][ExportNext]_vars
-Emit == cfg.t # "none" => PrintT(<<"REPLAY", ToJson(IF hist = <<>> THEN Program(cfg) ELSE HistProgram)>>)
+CallsOnly(c) == [cfg |-> c, ops |-> SetToSeq(AllOps)]
+Emit == cfg.t # "none" => PrintT(<<"REPLAY", ToJson(IF hist # <<>> THEN HistProgram
+                                                    ELSE IF Mode = "sibling" THEN CallsOnly(cfg) ELSE Program(cfg))>>)
 =============================================================================
